@@ -69,6 +69,7 @@ class HasPatcher:
         'true_socket',
         'true_stdout',
         'true_stderr',
+        '_depth',
     )
     markers: frozenset[str]
 
@@ -81,6 +82,7 @@ class HasPatcher:
         self.markers = frozenset(markers)
         self.message = message
         self.exception = exception or MarkerError
+        self._depth = 0
         if message and isinstance(self.exception, type):
             self.exception = self.exception(message)
 
@@ -159,6 +161,9 @@ class HasPatcher:
     # patching
 
     def patch(self) -> None:
+        self._depth += 1
+        if self._depth > 1:
+            return
         if not self.has_network:
             self.true_socket = socket.socket
             socket.socket = PatchedSocket(  # type: ignore[assignment,misc]
@@ -176,6 +181,9 @@ class HasPatcher:
             )
 
     def unpatch(self) -> None:
+        self._depth -= 1
+        if self._depth > 0:
+            return
         if not self.has_network:
             socket.socket = self.true_socket  # type: ignore[misc]
         if not self.has_stdout:
